@@ -370,6 +370,190 @@ pub fn mutations(doc: &Value) -> Vec<(String, String)> {
     out
 }
 
+// ------------------------------------------------------------------ positional forms
+//
+// serde lets a struct be written as a map (what serde_json produces) or as a sequence of its members in declaration
+// order (what non-self-describing formats produce; serde_json accepts it for derived and hand-written visitors
+// alike). The member order is read off the serialised text with a small order-preserving parser.
+
+#[derive(Clone, Debug, PartialEq)]
+enum J {
+    Atom(String),
+    Arr(Vec<J>),
+    Obj(Vec<(String, J)>),
+}
+
+fn parse_j(b: &[u8], i: &mut usize) -> J {
+    let ws = |i: &mut usize| {
+        while *i < b.len() && (b[*i] as char).is_whitespace() {
+            *i += 1;
+        }
+    };
+    ws(i);
+    match b[*i] {
+        b'{' => {
+            *i += 1;
+            let mut m = vec![];
+            loop {
+                ws(i);
+                if b[*i] == b'}' {
+                    *i += 1;
+                    break;
+                }
+                if b[*i] == b',' {
+                    *i += 1;
+                    continue;
+                }
+                let J::Atom(k) = parse_j(b, i) else { panic!("key") };
+                ws(i);
+                assert_eq!(b[*i], b':');
+                *i += 1;
+                let v = parse_j(b, i);
+                m.push((k.trim_matches('"').to_string(), v));
+            }
+            J::Obj(m)
+        }
+        b'[' => {
+            *i += 1;
+            let mut a = vec![];
+            loop {
+                ws(i);
+                if b[*i] == b']' {
+                    *i += 1;
+                    break;
+                }
+                if b[*i] == b',' {
+                    *i += 1;
+                    continue;
+                }
+                a.push(parse_j(b, i));
+            }
+            J::Arr(a)
+        }
+        b'"' => {
+            let st = *i;
+            *i += 1;
+            while b[*i] != b'"' {
+                if b[*i] == b'\\' {
+                    *i += 1;
+                }
+                *i += 1;
+            }
+            *i += 1;
+            J::Atom(String::from_utf8_lossy(&b[st..*i]).into_owned())
+        }
+        _ => {
+            let st = *i;
+            while *i < b.len() && !matches!(b[*i], b',' | b'}' | b']') && !(b[*i] as char).is_whitespace() {
+                *i += 1;
+            }
+            J::Atom(String::from_utf8_lossy(&b[st..*i]).into_owned())
+        }
+    }
+}
+
+fn j_text(j: &J) -> String {
+    match j {
+        J::Atom(a) => a.clone(),
+        J::Arr(a) => format!("[{}]", a.iter().map(j_text).collect::<Vec<_>>().join(",")),
+        J::Obj(m) => format!("{{{}}}", m.iter().map(|(k, v)| format!("\"{k}\":{}", j_text(v))).collect::<Vec<_>>().join(",")),
+    }
+}
+
+/// Every object of the tree (by path), written positionally - alone and all together -, then every number inside a
+/// positional object replaced by boundary values.
+pub fn positional_mutations(text: &str) -> Vec<(String, String)> {
+    let root = parse_j(text.as_bytes(), &mut 0);
+    fn obj_paths(j: &J, cur: Vec<usize>, acc: &mut Vec<Vec<usize>>) {
+        match j {
+            J::Obj(m) => {
+                acc.push(cur.clone());
+                for (i, (_, v)) in m.iter().enumerate() {
+                    let mut n = cur.clone();
+                    n.push(i);
+                    obj_paths(v, n, acc);
+                }
+            }
+            J::Arr(a) => {
+                for (i, v) in a.iter().enumerate().take(1) {
+                    let mut n = cur.clone();
+                    n.push(i);
+                    obj_paths(v, n, acc);
+                }
+            }
+            _ => {}
+        }
+    }
+    fn at<'a>(j: &'a mut J, p: &[usize]) -> &'a mut J {
+        let mut cur = j;
+        for &i in p {
+            cur = match cur {
+                J::Obj(m) => &mut m[i].1,
+                J::Arr(a) => &mut a[i],
+                x => x,
+            };
+        }
+        cur
+    }
+    fn flatten(j: &mut J, deep: bool) {
+        if let J::Obj(m) = j {
+            let mut vals: Vec<J> = m.iter().map(|(_, v)| v.clone()).collect();
+            if deep {
+                for v in vals.iter_mut() {
+                    flatten(v, true);
+                }
+            }
+            *j = J::Arr(vals);
+        }
+    }
+    let mut ps = vec![];
+    obj_paths(&root, vec![], &mut ps);
+    let mut out = vec![];
+    let mut forms: Vec<(String, J)> = vec![];
+    for p in &ps {
+        let mut d = root.clone();
+        flatten(at(&mut d, p), false);
+        forms.push((format!("positional@{p:?}"), d));
+    }
+    let mut all = root.clone();
+    flatten(&mut all, true);
+    forms.push(("positional@all".into(), all));
+    for (label, d) in forms {
+        out.push((label.clone(), j_text(&d)));
+        // numbers (and nulls) directly inside positional sequences
+        fn num_paths(j: &J, cur: Vec<usize>, in_seq: bool, acc: &mut Vec<Vec<usize>>) {
+            match j {
+                J::Atom(a) if in_seq && (a == "null" || a.parse::<f64>().is_ok()) => acc.push(cur),
+                J::Arr(a) if a.len() <= 12 => {
+                    for (i, v) in a.iter().enumerate() {
+                        let mut n = cur.clone();
+                        n.push(i);
+                        num_paths(v, n, true, acc);
+                    }
+                }
+                J::Obj(m) => {
+                    for (i, (_, v)) in m.iter().enumerate() {
+                        let mut n = cur.clone();
+                        n.push(i);
+                        num_paths(v, n, false, acc);
+                    }
+                }
+                _ => {}
+            }
+        }
+        let mut nps = vec![];
+        num_paths(&d, vec![], false, &mut nps);
+        for np in nps {
+            for val in ["-1", "0", "14", "15", "16", "17", "255", "256", "4294967295", "4294967296", "null", "true"] {
+                let mut e = d.clone();
+                *at(&mut e, &np) = J::Atom(val.into());
+                out.push((format!("{label}+{np:?}={val}"), j_text(&e)));
+            }
+        }
+    }
+    out
+}
+
 /// A mutated document must be refused, or yield a session on which everything stays panic-free.
 pub fn eval_doc(region: &str, text: &str) -> Vec<(String, String)> {
     let r = catch(|| serde_json::from_str::<Session>(text));
@@ -469,7 +653,8 @@ pub fn run(tier: Tier, replay: Option<&str>) {
     let accepted = AtomicU64::new(0);
     docs.par_iter().for_each(|d| {
         let v: Value = serde_json::from_str(d).unwrap();
-        let singles = mutations(&v);
+        let mut singles = mutations(&v);
+        singles.extend(positional_mutations(d));
         for (label, text) in &singles {
             for (sig, what) in eval_doc("EU868", text) {
                 ctx.violation(sig, what, serde_json::to_value(DocCase { region: "EU868".into(), text: text.clone(), label: label.clone() }).unwrap(), 1);
@@ -507,7 +692,7 @@ pub fn run(tier: Tier, replay: Option<&str>) {
         ],
         "evaluations": ctx.evals(),
         "distinct_nontrivial": states + muts.load(Ordering::Relaxed),
-        "rule": "BFS over session histories on the real device (plain / confirmed uplinks, downlinks that queue sticky and one-shot answers, owed ACKs, 3..15 bytes of pending answers through port 0, set_adr) from sessions whose counters start at 16/32-bit boundaries and with/without a downlink seen; at EVERY reached state the session is serialised with serde_json, deserialised, re-serialised (identical document), compared field by field through the snapshot hook, and a fresh device given the restored session runs in lock-step with the original for four probe transactions (uplink, replays of the last two accepted downlinks, a fresh confirmed downlink with a MAC command, uplink). Malformed documents: every single structural mutation (delete / duplicate / null / wrong type / boundary numbers / arrays one shorter or longer / non-byte elements) of the documents of representative states; pairs in thorough",
+        "rule": "BFS over session histories on the real device (plain / confirmed uplinks, downlinks that queue sticky and one-shot answers, owed ACKs, 3..15 bytes of pending answers through port 0, set_adr) from sessions whose counters start at 16/32-bit boundaries and with/without a downlink seen; at EVERY reached state the session is serialised with serde_json, deserialised, re-serialised (identical document), compared field by field through the snapshot hook, and a fresh device given the restored session runs in lock-step with the original for four probe transactions (uplink, replays of the last two accepted downlinks, a fresh confirmed downlink with a MAC command, uplink). Malformed documents: every single structural mutation (delete / duplicate / null / wrong type / boundary numbers / arrays one shorter or longer / non-byte elements) of the documents of representative states; the positional (sequence) form of every struct of the document - each alone and all together - and, on those, every number replaced by boundary values; pairs in thorough",
         "bfs_depth": depth,
         "documents_mutated": docs.len(),
         "mutated_documents_evaluated": muts.load(Ordering::Relaxed),
